@@ -14,6 +14,7 @@
 package c20
 
 import (
+	"encoding/binary"
 	"encoding/hex"
 	"encoding/json"
 	"fmt"
@@ -233,6 +234,42 @@ func run(c *vf.Ctx) {
 			}
 			return pool[rng.IntN(len(pool))]
 		}}
+		// enumerated: entries for the type's reserved (skipped) field numbers, well-formed,
+		// truncated and with a length prefix overshooting the rest of the message by 0..10 bytes
+		if T.info.Type.Kind() == reflect.Struct && len(T.info.StructInfo.Reserved) > 0 {
+			bases := [][]byte{nil}
+			for i := 0; i < len(corp) && i < 4; i++ {
+				bases = append(bases, corp[i])
+			}
+			for _, base := range bases {
+				fs, ok := parseFields(base)
+				if !ok {
+					continue
+				}
+				for _, rn := range T.info.StructInfo.Reserved {
+					j := 0
+					for j < len(fs) && fs[j].num < uint64(rn) {
+						j++
+					}
+					for _, keepRest := range []bool{false, true} {
+						for plen := 0; plen < 4; plen++ {
+							for over := 0; over <= 10; over++ {
+								payload := m.rng2(plen)
+								tail := []wfield(nil)
+								if keepRest {
+									tail = fs[j:]
+									payload = append(payload, joinFields(tail)...)
+								}
+								nf := wfield{num: uint64(rn), typ: 2, key: mkKey(uint64(rn), 2), lenpfx: binary.AppendUvarint(nil, uint64(len(payload)+over)), payload: payload}
+								bz := joinFields(append(append([]wfield(nil), fs[:j]...), nf))
+								t.checkBytes(T, bz, fmt.Sprintf("reserved-field-entry:over=%d", over))
+								local["reserved-field-entry"]++
+							}
+						}
+					}
+				}
+			}
+		}
 		n := perTypeMut * weight(T)
 		for k := 0; k < n; k++ {
 			var bz []byte
